@@ -36,7 +36,7 @@ Q = 60000
 
 def instances(tier, seed):
     out = []
-    progs = [{'fam': 'T1', 'K': 3, 'C': 2}, {'fam': 'T1', 'K': 4, 'C': 2}, {'fam': 'A1', 'K': 2, 'C': 2}, {'fam': 'D2', 'C': 2, 'cin': 2}, {'fam': 'L1'}]
+    progs = [{'fam': 'T1', 'K': 3, 'C': 2}, {'fam': 'T1', 'K': 4, 'C': 2}, {'fam': 'A1', 'K': 2, 'C': 2}, {'fam': 'D2', 'C': 2, 'cin': 2}, {'fam': 'L1'}, {'fam': 'W1', 'nd': 2}]
     if tier == 'thorough':
         progs += [{'fam': 'T1', 'K': K, 'C': 2} for K in (1, 2, 5, 6, 7, 8, 9)] + [{'fam': 'T2', 'K0': 2, 'K1': 2, 'T': 3}, {'fam': 'K1', 'origins': ['s', 'f']}, {'fam': 'R2'}, {'fam': 'W1', 'nd': 2}]
     for s in progs:
@@ -301,6 +301,59 @@ def _run_pit(res, p, selftest):
                               f'{pitlib.prog_id(spec)}:{metric}: raising |{qn}[{i}]| lowers the cost', selftest)
     res.witnesses += 1
     res.witnesses_ok += 1 if res.obligations > 0 else 0
+    res.absorb(ex)
+
+    # discrete cost: the straight-through estimators still deliver a gradient to every trainable mask parameter
+    pit_d, _, _ = pitlib.make_pit(spec, wseed, cost=specs, discrete_cost=True)
+    pit_d.train_net_and_nas()
+
+    def fn3(ex):
+        pairs, sy = pitlib.fresh_masks(pit_d, nonneg=True, ex=ex)
+        with SymMode(), swapped_params(pairs):
+            for s_ in sy.values():
+                s_.requires_grad_(True)
+            out = {}
+            for metric in specs:
+                c = pit_d.get_cost(metric)
+                gs = torch.autograd.grad(c, list(sy.values()), allow_unused=True)
+                out[metric] = {k: g is not None for k, g in zip(sy, gs)}
+        return sy, out
+    ex = Explorer(timeout_ms=Q)
+    byname_d = {qn: masker for qn, masker, pname, prm in pitlib.mask_params(pit_d)}
+    for pc, (sy, out) in ex.explore(fn3):
+        for metric, has in out.items():
+            for qn, ok in has.items():
+                if isinstance(byname_d[qn], PITFrozenFeaturesMasker):
+                    continue
+                res.oblige(ok)
+                if not ok:
+                    m_, _ = pitlib.grid_model(ex, sy, [])
+                    res.violations.append({'key': f'{pitlib.prog_id(spec)}:{metric}|discrete|grad_none|{qn.split(".")[-1]}', 'spec': spec, 'metric': metric,
+                                           'what': f'{pitlib.prog_id(spec)}:{metric} with discrete_cost=True: no gradient reaches {qn}'})
+    res.absorb(ex)
+
+    # the cost depends on the architecture only: a specification (re)assigned while the masks have ANY value must give, once every mask is
+    # fully open again, the cost of the original model
+    open_cost = {m_: float(pit.get_cost(m_)) for m_ in specs}
+
+    def fn4(ex):
+        pairs, sy = pitlib.fresh_masks(pit, nonneg=True, ex=ex)
+        with SymMode(), swapped_params(pairs):
+            pit.cost_specification = specs
+        got = {m_: float(pit.get_cost(m_)) for m_ in specs}     # masks restored to their open initial value
+        return sy, got
+    ex = Explorer(timeout_ms=Q)
+    try:
+        for pc, (sy, got) in ex.explore(fn4):
+            for m_ in specs:
+                ok = abs(got[m_] - open_cost[m_]) <= 1e-6 * max(1, abs(open_cost[m_]))
+                res.oblige(ok)
+                if not ok:
+                    mm, _ = pitlib.grid_model(ex, sy, [])
+                    res.violations.append({'key': f'{pitlib.prog_id(spec)}:{m_}|depends_on_masks_at_assignment', 'spec': spec, 'metric': m_, 'masks': jsonable(pitlib.values_of(mm, sy)),
+                                           'what': f'{pitlib.prog_id(spec)}: cost specification assigned while masks were {jsonable(pitlib.values_of(mm, sy))}: open-mask {m_} cost is {got[m_]} instead of {open_cost[m_]}'})
+    finally:
+        pit.cost_specification = specs
     res.absorb(ex)
     if selftest and not res.violations:
         res.violations.append({'key': 'selftest', 'what': 'n/a'})
